@@ -6,7 +6,7 @@ import gen
 import vlib
 
 MANIFEST = {
-    "text": "Coq theorems over the VM model for EVERY program, all limits, every folding function: in strict mode every error an iteration raises (thread-ending or stored by JUMPI) is appended to the error list and never dropped; every listed error lies inside the code; permissive mode never records one of the four jump-target kinds (JUMP or JUMPI); the flag changes nothing but the error list (same retired states, queue, fork counters, gas) and permissive errors are a subset of strict errors, so when strict mode succeeds permissive mode succeeds on the same states. In the model the flag is read in exactly one place; the tie to the code is the correspondence run of the real VM in BOTH modes, and the property predicate is evaluated on the implementation's own outputs including the layouts of both whole analyses. Against the independent reference EVM (loop-free programs, generous limits): a bad jump the reference reaches must surface in strict mode (38), and EVERY fault the reference reaches -- bad destination or stack fault, per offset and class, also when several paths fault differently at one shared instruction -- must be in strict mode's list (39). End to end, on the composed model of the whole analysis (coq/Pipeline.v), for every program, limits, iteration-order mode and fuel: pipeline_strict_success_same_as_permissive (a layout in strict mode is the layout in permissive mode) and pipeline_permissive_errors_subset; the model is run in both modes against the real analysis in both modes.",
+    "text": "Coq theorems over the VM model for EVERY program, all limits, every folding function: in strict mode every error an iteration raises (thread-ending or stored by JUMPI) is appended to the error list and never dropped; every listed error lies inside the code; permissive mode never records one of the four jump-target kinds (JUMP or JUMPI); the flag changes nothing but the error list (same retired states, queue, fork counters, gas) and permissive errors are a subset of strict errors, so when strict mode succeeds permissive mode succeeds on the same states. In the model the flag is read in exactly one place; the tie to the code is the correspondence run of the real VM in BOTH modes, and the property predicate is evaluated on the implementation's own outputs including the layouts of both whole analyses. Against the independent reference EVM (loop-free programs, generous limits): a bad jump the reference reaches must surface in strict mode (38), and EVERY fault the reference reaches -- bad destination or stack fault, per offset and class, also when several paths fault differently at one shared instruction -- must be in strict mode's list (39). End to end, on the composed model of the whole analysis (coq/Pipeline.v), for every program, limits, iteration-order mode and fuel: pipeline_strict_success_same_as_permissive (a layout in strict mode is the layout in permissive mode) and pipeline_permissive_errors_subset; the model is run in both modes against the real analysis in both modes. C17_gas_exceeded_listed (proofs/VmGasError.v): in the VM model, for every program, configuration and run, every entry of the retirement log whose gas account exceeds the limit has a GasLimitExceeded error listed at that instruction. Running out of gas is an execution error in both modes: on the implementation's own retirement log, a thread retired with a gas account above the limit must have a GasLimitExceeded error listed at that instruction (code 40), searched with every gas limit from 1 to just above the total gas of short paths whose last charged instruction also ends the thread for another reason (end of code, unknown jump target, visit limit) or does not.",
     "note": "Trusted: Coq kernel + vm_compute; translator T1/T9; harness; hooks H2/H3. With a watchdog stop the Rust code returns only "
             "the StoppedByWatchdog error (earlier errors are dropped by the early return): the persistence theorem is about the error "
             "buffer, the check uses a never-stopping watchdog.",
@@ -19,6 +19,7 @@ CODES = {30: "result class does not match the error list", 31: "error located ou
          34: "permissive mode recorded an error strict mode did not", 35: "permissive mode dropped a non-jump error",
          39: "a fault the reference EVM reaches (bad jump destination / stack fault at that offset) is missing from strict mode's error list",
          38: "the reference EVM reaches a jump with a bad destination, yet strict mode reported no error",
+         40: "a thread was retired with more gas than the limit, yet no GasLimitExceeded error is listed at that instruction",
          36: "strict mode returned a layout but permissive mode failed or returned a different layout", 37: "panic"}
 
 
@@ -54,6 +55,17 @@ def check(ctx):
         for grow in ([0x5f], [0x60, 0x01], [0x80], [0x8f], [0x58], [0x33], [0x36], [0x80, 0x50], [0x90], [0x50]):
             code = bytes([0x5f] * depth + grow + [0x00])
             progs.setdefault((code, (30000000, 10, 50, 250, 394)), "stack-limit")
+    # tight gas limits: every limit from 1 up to a little above the total gas of a short path whose LAST charged instruction
+    # also ends the thread for another reason (falling off the end of the code, a jump to an unknown target, the visit limit
+    # at a loop's back edge) or does not (a STOP behind it) -- running out of gas is an execution error in both modes
+    tight = [(bytes.fromhex("6001600055"), range(1, 112), 10), (bytes.fromhex("600160005500"), range(1, 112), 10),
+             (bytes.fromhex("3656"), range(1, 14), 10), (bytes.fromhex("365600"), range(1, 14), 10),
+             (bytes.fromhex("5b600056"), range(1, 130), 3), (bytes.fromhex("5b60005600"), range(1, 130), 3),
+             (bytes.fromhex("60016000553660105760026001555b6003600255"), range(90, 340, 3), 10),
+             (bytes.fromhex("365f5f375f5f20"), range(1, 60), 10), (bytes.fromhex("5f5f5f5f5f5ff1"), range(1, 125, 2), 10)]
+    for code, glims, it in (tight if ctx.quick else tight + [(c + b"\x5b", g, i) for c, g, i in tight]):
+        for g in glims:
+            progs.setdefault((code, (g, it, 50, 250, 394)), "tight-gas")
     for code in gen.trampoline_programs(rng, 150 if ctx.quick else 3000):
         progs.setdefault((code, (30000000, 10, 50, 250, 394)), "shared-trampoline")
     keys = list(progs.keys())
